@@ -293,8 +293,13 @@ class ParseContext(ParserEngine):
             return cstfinal(self.cst)
         finally:
             ast = self.ast
+            cutseen = self.state.cutseen
             self.states.pop()
             self.ast = ast
+            if cutseen:
+                # a cut inside an isolated iteration commits the enclosing
+                # option, as it does in the first iteration of a closure
+                self.state.cutseen = True
 
     _isolate = isolate
 
